@@ -8,6 +8,7 @@ import (
 	"sync"
 	"sync/atomic"
 
+	sgbucket "github.com/couchbase/sg-bucket"
 	"github.com/couchbaselabs/rosmar"
 )
 
@@ -154,6 +155,72 @@ func stressMode(args []string) int {
 			bad++
 		} else {
 			fmt.Printf("ok %s-casorder cas=%d\n", kind, row.Cas)
+		}
+		// C15 under real concurrency: checkpointed resume-mode dump runs back to back while writers are active; taken together the runs
+		// deliver the final version of every document (a run only backfills committed rows, and every later commit has a larger CAS)
+		for rep := 0; rep < 6; rep++ {
+			delivered := map[string]map[uint64]bool{}
+			var dmu sync.Mutex
+			runDump := func() {
+				done := make(chan struct{})
+				err := cs[0].StartDCPFeed(ctx, sgbucket.FeedArguments{ID: fmt.Sprintf("rs%d", rep), Backfill: sgbucket.FeedResume, Dump: true, CheckpointPrefix: "cp", DoneChan: done},
+					func(e sgbucket.FeedEvent) bool {
+						if e.Opcode == sgbucket.FeedOpMutation || e.Opcode == sgbucket.FeedOpDeletion {
+							dmu.Lock()
+							if delivered[string(e.Key)] == nil {
+								delivered[string(e.Key)] = map[uint64]bool{}
+							}
+							delivered[string(e.Key)][e.Cas] = true
+							dmu.Unlock()
+						}
+						return true
+					}, nil)
+				if err == nil {
+					<-done
+				}
+			}
+			var wg3 sync.WaitGroup
+			var writing atomic.Bool
+			writing.Store(true)
+			for g := 0; g < 6; g++ {
+				wg3.Add(1)
+				go func(g int) {
+					defer wg3.Done()
+					c := cs[g%2]
+					for i := 0; i < 80; i++ {
+						_ = c.SetRaw(fmt.Sprintf("r%d_%d_%d", rep, g, i%4), 0, nil, []byte(fmt.Sprintf("%d", i)))
+					}
+				}(g)
+			}
+			go func() { wg3.Wait(); writing.Store(false) }()
+			for writing.Load() {
+				runDump()
+			}
+			runDump()
+			runDump()
+			missing := ""
+			for g := 0; g < 6; g++ {
+				for j := 0; j < 4; j++ {
+					k := fmt.Sprintf("r%d_%d_%d", rep, g, j)
+					row, err := rosmar.VerifRawRow(cs[0], k)
+					if err != nil || !row.Found {
+						continue
+					}
+					dmu.Lock()
+					ok := delivered[k][row.Cas]
+					dmu.Unlock()
+					if !ok && missing == "" {
+						missing = fmt.Sprintf("%s (cas %d)", k, row.Cas)
+					}
+				}
+			}
+			if missing != "" {
+				fmt.Printf("violation %s-resume: the final version of %s was delivered by no run of the checkpointed feed although two runs followed the last write\n", kind, missing)
+				bad++
+				break
+			} else if rep == 5 {
+				fmt.Printf("ok %s-resume\n", kind)
+			}
 		}
 		_ = b1.CloseAndDelete(ctx)
 		b2.Close(ctx)
